@@ -132,7 +132,7 @@ type verifProfile struct {
 type verifSecBackend struct{ e *verifEnv }
 
 func (b *verifSecBackend) Initialize(*interfaces.SecurityBackendOptions) error { return nil }
-func (b *verifSecBackend) Name() interfaces.SecuritySystem                    { return "verif" }
+func (b *verifSecBackend) Name() interfaces.SecuritySystem                     { return "verif" }
 func (b *verifSecBackend) NewSpecification(*interfaces.SnapAppSet, interfaces.ConfinementOptions) interfaces.Specification {
 	return &ifacetest.Specification{}
 }
@@ -679,7 +679,7 @@ func verifRebase(pre, before, after map[string]string) {
 	}
 }
 
-func (e *verifEnv) restart(op string, pre *verifSnapshot) {
+func (e *verifEnv) restart(op string, pres []*verifSnapshot) {
 	c := e.c
 	if g := e.peekGate(); g != nil && strings.HasPrefix(g.label, "setup ") {
 		e.takeGate()
@@ -719,11 +719,11 @@ func (e *verifEnv) restart(op string, pre *verifSnapshot) {
 	e.newInstance(data)
 	s := e.snapshot()
 	c.Logf("  after restart: conns=%s repo=%s", verifKeys(s.conns), verifKeys(s.repo))
-	if pre != nil {
+	for i, pre := range pres {
 		// what startup housekeeping (stale connections of removed snaps,
 		// refreshed static attributes) changed is not the doing of the
 		// change in progress
-		if d := verifMapDiff(before.conns, s.conns); d != "" {
+		if d := verifMapDiff(before.conns, s.conns); d != "" && i == 0 {
 			c.Count("probe:startup-changed-conns-mid-change")
 			c.Logf("  startup changed persisted conns: %s", d)
 		}
@@ -762,7 +762,35 @@ func verifTaskLess(a, b *state.Task) bool {
 }
 
 // ---------------------------------------------------------------------------
-// driving one change to completion
+// generating and driving changes
+
+type verifChange struct {
+	id, summary string
+	plan        *verifPlan
+	targets     []string // connection ids a connect/disconnect/forget change is about
+	snap        string   // the snap an install/remove change is about
+	born        int      // simulator step at which it was created
+	status      state.Status
+}
+
+// touches: may this change legitimately alter the entry of connection id?
+func (ch *verifChange) touches(id string) bool {
+	for _, t := range ch.targets {
+		if t == id {
+			return true
+		}
+	}
+	return ch.snap != "" && (strings.HasPrefix(id, ch.snap+":") || strings.Contains(id, " "+ch.snap+":"))
+}
+
+func (ch *verifChange) failed() bool { return ch.status != state.DoneStatus }
+
+func (ch *verifChange) fault() string {
+	if !ch.failed() {
+		return "none"
+	}
+	return ch.plan.faultName()
+}
 
 func (e *verifEnv) statusLine(chgID string) string {
 	st := e.in.st
@@ -781,49 +809,318 @@ func (e *verifEnv) statusLine(chgID string) string {
 	return sb.String()
 }
 
-func (e *verifEnv) drive(chgID string, plan *verifPlan) state.Status {
+func verifSideInfo(name string) *snap.SideInfo {
+	return &snap.SideInfo{RealName: name, Revision: snap.R(1)}
+}
+
+// submit asks snapd for one operation, chosen by looking at the current
+// situation (mostly) or blindly (sometimes). It returns nil when the
+// operation was a restart or was refused.
+func (e *verifEnv) submit(label string, overlapping bool, withFault bool, step int) *verifChange {
 	c := e.c
+	st := e.in.st
+	repo := e.in.mgr.Repository()
+	pre := e.snapshot()
+	present := map[string]bool{}
+	for _, n := range verifSnapNames {
+		present[n] = e.installed(n)
+	}
+	var canConnect, canDisconnect, canForget []verifPair
+	for _, p := range verifPairs {
+		if _, active := pre.active[p.id()]; !active && present[p.ps] && present[p.ss] {
+			canConnect = append(canConnect, p)
+		}
+	}
+	for _, p := range verifPairs[:4] {
+		if _, ok := pre.active[p.id()]; ok {
+			canDisconnect = append(canDisconnect, p)
+		}
+		if _, ok := pre.conns[p.id()]; ok {
+			canForget = append(canForget, p)
+		}
+	}
+	var canInstall, canRemove []string
+	for _, n := range verifSnapNames {
+		if present[n] {
+			canRemove = append(canRemove, n)
+		} else {
+			canInstall = append(canInstall, n)
+		}
+	}
+	var kinds []string
+	add := func(k string, w int, ok bool) {
+		for i := 0; ok && i < w; i++ {
+			kinds = append(kinds, k)
+		}
+	}
+	add("connect", 3, len(canConnect) > 0)
+	add("disconnect", 3, len(canDisconnect) > 0)
+	add("forget", 1, len(canForget) > 0)
+	add("install", 2, len(canInstall) > 0)
+	add("remove", 2, len(canRemove) > 0)
+	add("restart", 1, !overlapping)
+	add("blind", 1, true)
+	opk := kinds[c.Draw("op", len(kinds))]
+	if opk == "blind" {
+		// not looking at the situation: may well be refused
+		opk = []string{"connect", "disconnect", "forget", "install", "remove"}[c.Draw("op.blind", 5)]
+		canConnect, canDisconnect, canForget = verifPairs, verifPairs[:4], verifPairs[:4]
+		canInstall, canRemove = verifSnapNames, verifSnapNames
+		c.Count("op-blind")
+	}
+	ch := &verifChange{born: step}
+	plan := &verifPlan{setupTouched: map[string]bool{}, op: opk, pre: pre}
+	ch.plan = plan
+	var tss []*state.TaskSet
+	var apiErr error
+	switch opk {
+	case "connect":
+		p := canConnect[c.Draw("op.pair", len(canConnect))]
+		ch.targets = []string{p.id()}
+		ch.summary = "connect " + p.id()
+		st.Lock()
+		ts, err := ifacestate.Connect(st, p.ps, p.pn, p.ss, p.sn)
+		st.Unlock()
+		if err != nil {
+			apiErr = err
+		} else {
+			tss = append(tss, ts)
+		}
+	case "disconnect", "forget":
+		forget := opk == "forget"
+		cands := canDisconnect
+		if forget {
+			cands = canForget
+		}
+		p := cands[c.Draw("op.pair", len(cands))]
+		ch.summary = opk + " " + p.id()
+		st.Lock()
+		var refs []*interfaces.ConnRef
+		var err error
+		if c.Chance("op.short-form", 1, 4) {
+			// snap disconnect <snap>:<plug>: every connection of the plug
+			ch.summary = opk + " " + p.ps + ":" + p.pn
+			refs, err = e.in.mgr.ResolveDisconnect(p.ps, p.pn, "", "", forget)
+			sort.Slice(refs, func(i, j int) bool { return refs[i].ID() < refs[j].ID() })
+			if len(refs) > 1 {
+				c.Count("probe:multi-connection-disconnect")
+			}
+		} else {
+			refs, err = e.in.mgr.ResolveDisconnect(p.ps, p.pn, p.ss, p.sn, forget)
+		}
+		if err != nil {
+			apiErr = err
+			st.Unlock()
+			break
+		}
+		for _, ref := range refs {
+			var ts *state.TaskSet
+			if forget {
+				if _, cerr := repo.Connection(ref); cerr != nil {
+					c.Count("probe:forget-inactive-connection")
+				}
+				ts, err = ifacestate.Forget(st, repo, ref)
+			} else {
+				var conn *interfaces.Connection
+				conn, err = repo.Connection(ref)
+				if err == nil {
+					ts, err = ifacestate.Disconnect(st, conn)
+				}
+			}
+			if err != nil {
+				apiErr = err
+				break
+			}
+			tss = append(tss, ts)
+			ch.targets = append(ch.targets, ref.ID())
+		}
+		st.Unlock()
+		if apiErr != nil {
+			tss = nil
+		}
+	case "install":
+		name := canInstall[c.Draw("op.snap", len(canInstall))]
+		ch.summary = "install " + name
+		ch.snap = name
+		if present[name] {
+			apiErr = fmt.Errorf("snap %q is already installed", name)
+			break
+		}
+		st.Lock()
+		if err := snapstate.CheckChangeConflict(st, name, nil); err != nil {
+			apiErr = err
+			st.Unlock()
+			break
+		}
+		snapsup := &snapstate.SnapSetup{SideInfo: verifSideInfo(name)}
+		sp := st.NewTask("setup-profiles", "setup profiles of "+name)
+		sp.Set("snap-setup", snapsup)
+		ln := st.NewTask("link-snap", "link "+name)
+		ln.Set("snap-setup-task", sp.ID())
+		ln.WaitFor(sp)
+		ac := st.NewTask("auto-connect", "auto-connect "+name)
+		ac.Set("snap-setup-task", sp.ID())
+		ac.WaitFor(ln)
+		tss = append(tss, state.NewTaskSet(sp, ln, ac))
+		st.Unlock()
+	case "remove":
+		name := canRemove[c.Draw("op.snap", len(canRemove))]
+		ch.summary = "remove " + name
+		ch.snap = name
+		if !present[name] {
+			apiErr = fmt.Errorf("snap %q is not installed", name)
+			break
+		}
+		legacy := c.Chance("op.legacy-discard-conns", 1, 4)
+		st.Lock()
+		if err := snapstate.CheckChangeConflict(st, name, nil); err != nil {
+			apiErr = err
+			st.Unlock()
+			break
+		}
+		snapsup := &snapstate.SnapSetup{SideInfo: verifSideInfo(name)}
+		ad := st.NewTask("auto-disconnect", "disconnect interfaces of "+name)
+		ad.Set("snap-setup", snapsup)
+		prev := ad
+		all := []*state.Task{ad}
+		tkinds := []string{"unlink-snap", "remove-profiles", "discard-snap"}
+		if legacy {
+			tkinds = append(tkinds, "discard-conns")
+			ch.summary += " (+discard-conns)"
+		}
+		for _, k := range tkinds {
+			t := st.NewTask(k, k+" "+name)
+			t.Set("snap-setup-task", ad.ID())
+			t.WaitFor(prev)
+			prev = t
+			all = append(all, t)
+		}
+		tss = append(tss, state.NewTaskSet(all...))
+		st.Unlock()
+	default: // restart between changes
+		c.Logf("%s: restart", label)
+		e.restart("idle", nil)
+		return nil
+	}
+	if apiErr != nil || len(tss) == 0 {
+		c.Logf("%s: %s refused: %v", label, ch.summary, apiErr)
+		c.Count("op-refused")
+		if overlapping {
+			if _, ok := apiErr.(*snapstate.ChangeConflictError); ok {
+				c.Count("probe:overlapping-op-refused-as-conflict")
+			}
+		}
+		return nil
+	}
+	// the failure point of this change
+	if withFault {
+		switch c.Draw("fault.kind", 8) {
+		case 3, 7:
+			plan.kind = verifFaultTask
+			plan.at = c.Draw("fault.task", 8)
+		case 4:
+			plan.kind = verifFaultHook
+			plan.at = c.Draw("fault.hook", 4)
+		case 5:
+			plan.kind = verifFaultSetup
+			plan.at = c.Draw("fault.setup", 4)
+		case 6:
+			plan.kind = verifFaultAbort
+			plan.at = c.Draw("fault.step", 16)
+		}
+	}
+	if !overlapping && c.Chance("restart.mid-change", 1, 8) {
+		plan.restartAt = 1 + c.Draw("restart.step", 12)
+	}
+	plan.dyn = c.Draw("hook.dynamic-attr", 3)
+	st.Lock()
+	chg := st.NewChange(plan.op, ch.summary)
+	for _, ts := range tss {
+		chg.AddAll(ts)
+	}
+	ch.id = chg.ID()
+	st.Unlock()
+	e.plans[ch.id] = plan
+	c.Logf("%s: %s (change %s) fault=%s@%d restart@%d dyn=%d; before: conns=%s repo=%s", label, ch.summary, ch.id,
+		verifFaultNames[plan.kind], plan.at, plan.restartAt, plan.dyn, verifKeys(pre.conns), verifKeys(pre.repo))
+	c.Count("op:" + plan.op)
+	if overlapping {
+		c.Count("probe:overlapping-change-accepted")
+	}
+	return ch
+}
+
+// driveAll runs the ensure loop until the given change (and the one that may
+// be submitted while it is in progress) have settled. false: stop the run.
+func (e *verifEnv) driveAll(first *verifChange, overlapAt int, faultsOn bool) ([]*verifChange, bool) {
+	c := e.c
+	active := []*verifChange{first}
 	idle := 0
 	for step := 1; ; step++ {
-		if step > 400 {
-			c.Fatalf("change %s (%s) does not settle within 400 simulator steps: %s", chgID, plan.op, e.statusLine(chgID))
+		if step > 600 {
+			c.Fatalf("change %s (%s) does not settle within 600 simulator steps: %s", first.id, first.summary, e.statusLine(first.id))
 		}
 		if err := e.in.o.StateEngine().Ensure(); err != nil {
 			c.Logf("ensure: %v", err)
 		}
 		synctest.Wait()
 		st := e.in.st
+		allReady := true
 		st.Lock()
-		chg := st.Change(chgID)
-		ready := chg.IsReady()
-		status := chg.Status()
+		for _, ch := range active {
+			chg := st.Change(ch.id)
+			ch.status = chg.Status()
+			if !chg.IsReady() {
+				allReady = false
+			}
+		}
 		st.Unlock()
 		g := e.peekGate()
-		if ready && g == nil {
-			return status
+		if allReady && g == nil {
+			return active, true
 		}
-		if plan.kind == verifFaultAbort && !plan.fired && step == plan.at+1 {
-			st.Lock()
-			chg.Abort()
-			st.Unlock()
-			plan.fired = true
-			c.Count("fault:abort")
-			if g != nil {
-				c.Count("probe:abort-while-handler-in-flight")
+		if overlapAt != 0 && step == overlapAt && len(active) == 1 {
+			// a second request arrives while the first change is in progress;
+			// only one of the two carries a failure point
+			second := e.submit(fmt.Sprintf("  OVERLAP at step %d", step), true, faultsOn && first.plan.kind == verifFaultNone, step)
+			if second != nil {
+				active = append(active, second)
 			}
-			c.Logf("ABORT change %s at step %d: %s", chgID, step, e.statusLine(chgID))
 			continue
 		}
-		if plan.restartAt != 0 && !plan.restarted && step == plan.restartAt {
-			plan.restarted = true
+		aborted := false
+		for _, ch := range active {
+			p := ch.plan
+			if p.kind == verifFaultAbort && !p.fired && step-ch.born == p.at+1 {
+				st.Lock()
+				st.Change(ch.id).Abort()
+				st.Unlock()
+				p.fired = true
+				c.Count("fault:abort")
+				if g != nil {
+					c.Count("probe:abort-while-handler-in-flight")
+				}
+				c.Logf("ABORT change %s at step %d: %s", ch.id, step, e.statusLine(ch.id))
+				aborted = true
+			}
+		}
+		if aborted {
+			continue
+		}
+		if p := first.plan; p.restartAt != 0 && !p.restarted && step == p.restartAt {
+			p.restarted = true
 			c.Count("probe:restart-mid-change")
 			if g != nil {
 				c.Count("probe:restart-while-handler-in-flight")
 			}
-			c.Logf("restart in the middle of change %s at step %d: %s", chgID, step, e.statusLine(chgID))
-			e.restart(plan.op+"-in-progress", plan.pre)
+			c.Logf("restart in the middle of change %s at step %d: %s", first.id, step, e.statusLine(first.id))
+			var pres []*verifSnapshot
+			for _, ch := range active {
+				pres = append(pres, ch.plan.pre)
+			}
+			e.restart(p.op+"-in-progress", pres)
 			if len(c.Violations) > 0 {
-				return state.DefaultStatus
+				return active, false
 			}
 			continue
 		}
@@ -837,9 +1134,139 @@ func (e *verifEnv) drive(chgID string, plan *verifPlan) state.Status {
 		}
 		idle++
 		if idle >= 2 {
+			// nothing running, nothing runnable: tasks wait for a retry time
 			time.Sleep(500 * time.Millisecond)
 			synctest.Wait()
+			c.Count("clock-steps")
 		}
+	}
+}
+
+// evaluate applies the two sentences of the statement once everything that
+// was in progress has settled.
+func (e *verifEnv) evaluate(active []*verifChange) {
+	c := e.c
+	post := e.snapshot()
+	// the change an inconsistency is filed under: the one with the failure point
+	blamed := active[0]
+	setupFaultFired := false
+	for _, ch := range active {
+		if ch.plan.fired || (ch.failed() && !blamed.plan.fired && !blamed.failed()) {
+			if !blamed.plan.fired {
+				blamed = ch
+			}
+		}
+		if ch.plan.fired && ch.plan.kind == verifFaultSetup {
+			setupFaultFired = true
+		}
+	}
+	for _, ch := range active {
+		if ch.failed() {
+			c.Count("probe:failed-change")
+			if ch.fault() == "natural" {
+				c.Count("fault:natural-failure")
+			}
+		}
+		if ch.plan.fired || ch.plan.restarted || ch.failed() || len(active) > 1 {
+			c.Nontrivial()
+		}
+		c.Logf("SETTLED change %s %v (fault %s): %s", ch.id, ch.status, ch.fault(), e.statusLine(ch.id))
+	}
+	c.Logf("  after: conns=%s repo=%s", verifKeys(post.conns), verifKeys(post.repo))
+
+	// sentence 1: a failed connect or disconnect change leaves everything as it was
+	for _, ch := range active {
+		if !ch.failed() || len(ch.targets) == 0 {
+			continue
+		}
+		plan := ch.plan
+		pre := plan.pre
+		fault := ch.fault()
+		c.Add("transaction-evaluations", 1)
+		// entries another change in progress at the same time is about are
+		// that change's business
+		foreign := func(id string) bool {
+			for _, o := range active {
+				if o != ch && o.touches(id) {
+					return true
+				}
+			}
+			return false
+		}
+		filter := func(m map[string]string) map[string]string {
+			if len(active) == 1 {
+				return m
+			}
+			r := map[string]string{}
+			for k, v := range m {
+				if !foreign(k) {
+					r[k] = v
+				}
+			}
+			return r
+		}
+		snapSet := map[string]bool{}
+		for _, id := range ch.targets {
+			if ref, err := interfaces.ParseConnRef(id); err == nil {
+				snapSet[ref.PlugRef.Snap] = true
+				snapSet[ref.SlotRef.Snap] = true
+			}
+			if _, ok := pre.conns[id]; ok {
+				if !strings.Contains(pre.conns[id], `"undesired":true`) {
+					c.Count("probe:failed-change-on-existing-connection")
+				} else {
+					c.Count("probe:failed-change-over-undesired-entry")
+				}
+			}
+		}
+		if d := verifMapDiff(filter(pre.conns), filter(post.conns)); d != "" {
+			c.Violate(fmt.Sprintf("C22/conns-not-restored.%s.%s", plan.op, fault),
+				"%s failed (%s, status %v) but the persisted connections differ from before the change (before vs after): %s", ch.summary, fault, ch.status, d)
+		}
+		if d := verifMapDiff(filter(pre.repo), filter(post.repo)); d != "" {
+			c.Violate(fmt.Sprintf("C22/repo-not-restored.%s.%s", plan.op, fault),
+				"%s failed (%s, status %v) but the in-memory connections differ from before the change (before vs after): %s", ch.summary, fault, ch.status, d)
+		} else if d := verifMapDiff(filter(pre.repoSt), filter(post.repoSt)); d != "" {
+			c.Violate(fmt.Sprintf("C22/repo-attrs-not-restored.%s.%s", plan.op, fault),
+				"%s failed (%s, status %v) but static attributes of in-memory connections differ (before vs after): %s", ch.summary, fault, ch.status, d)
+		}
+		if setupFaultFired && !(plan.fired && plan.kind == verifFaultSetup) {
+			// the other change had the backend fail: the profiles it left
+			// behind are filed under that change, not this one
+			continue
+		}
+		for _, sn := range verifSnapNames {
+			if !snapSet[sn] || !plan.setupTouched[sn] {
+				continue
+			}
+			p := e.profiles[sn]
+			if p == nil || !p.ok || p.removed {
+				// the last attempt to write this snap's profile was the injected failure
+				continue
+			}
+			var ids []string
+			for id := range post.repo {
+				if strings.HasPrefix(id, sn+":") || strings.Contains(id, " "+sn+":") {
+					ids = append(ids, id)
+				}
+			}
+			sort.Strings(ids)
+			want := strings.Join(ids, ",")
+			c.Add("profile-evaluations", 1)
+			if p.seen != want {
+				c.Violate(fmt.Sprintf("C22/profile-not-regenerated.%s.%s", plan.op, fault),
+					"%s failed (%s, status %v): the security profile of %q was last generated from connections [%s] but the restored set is [%s]", ch.summary, fault, ch.status, sn, p.seen, want)
+			}
+		}
+	}
+	// sentence 2: after every settled change persisted == memory (not
+	// reported a second time when sentence 1 already found one side not
+	// restored)
+	if len(c.Violations) == 0 {
+		e.checkSync(post, "after-settled-change", blamed.plan.op, blamed.fault())
+	}
+	for _, ch := range active {
+		delete(e.plans, ch.id)
 	}
 }
 
@@ -918,6 +1345,7 @@ func verifRunC22(c *verifsim.Ctx) {
 	// swarm configuration
 	faultsOn := c.Chance("cfg.faults-on", 3, 4)
 	e.parkOn = c.Chance("cfg.park-handlers", 3, 4)
+	overlapOn := c.Chance("cfg.overlapping-requests", 1, 2)
 	hv := c.Draw("cfg.hooks", 4) // 0 none, 1 consumer, 2 consumer+producer, 3 all
 	e.hooks["consumer"] = hv >= 1
 	e.hooks["producer"] = hv >= 2
@@ -929,7 +1357,7 @@ func verifRunC22(c *verifsim.Ctx) {
 	}
 
 	// snaps on disk (all of them) and in the state (the installed ones)
-	sideInfo := func(name string) *snap.SideInfo { return &snap.SideInfo{RealName: name, Revision: snap.R(1)} }
+	sideInfo := verifSideInfo
 	for _, name := range verifSnapNames {
 		y := verifSnapYaml(name, e.hooks[name])
 		if verifYamlOnFS[name] == y {
@@ -1023,306 +1451,19 @@ func verifRunC22(c *verifsim.Ctx) {
 		if len(c.Violations) > 0 {
 			return
 		}
-		st := e.in.st
-		repo := e.in.mgr.Repository()
-		pre := e.snapshot()
-		present := map[string]bool{}
-		for _, n := range verifSnapNames {
-			present[n] = e.installed(n)
-		}
-		// what can be asked for in the current situation
-		var canConnect, canDisconnect, canForget []verifPair
-		for _, p := range verifPairs {
-			if _, active := pre.active[p.id()]; !active && present[p.ps] && present[p.ss] {
-				canConnect = append(canConnect, p)
-			}
-		}
-		for _, p := range verifPairs[:4] {
-			if _, ok := pre.active[p.id()]; ok {
-				canDisconnect = append(canDisconnect, p)
-			}
-			if _, ok := pre.conns[p.id()]; ok {
-				canForget = append(canForget, p)
-			}
-		}
-		var canInstall, canRemove []string
-		for _, n := range verifSnapNames {
-			if present[n] {
-				canRemove = append(canRemove, n)
-			} else {
-				canInstall = append(canInstall, n)
-			}
-		}
-		var kinds []string
-		add := func(k string, w int, ok bool) {
-			for i := 0; ok && i < w; i++ {
-				kinds = append(kinds, k)
-			}
-		}
-		add("connect", 3, len(canConnect) > 0)
-		add("disconnect", 3, len(canDisconnect) > 0)
-		add("forget", 1, len(canForget) > 0)
-		add("install", 2, len(canInstall) > 0)
-		add("remove", 2, len(canRemove) > 0)
-		add("restart", 1, true)
-		add("blind", 1, true)
-		opk := kinds[c.Draw("op", len(kinds))]
-		if opk == "blind" {
-			// not looking at the situation: may well be refused
-			opk = []string{"connect", "disconnect", "forget", "install", "remove"}[c.Draw("op.blind", 5)]
-			canConnect, canDisconnect, canForget = verifPairs, verifPairs[:4], verifPairs[:4]
-			canInstall, canRemove = verifSnapNames, verifSnapNames
-			c.Count("op-blind")
-		}
-		plan := &verifPlan{setupTouched: map[string]bool{}, op: opk, pre: pre}
-		var tss []*state.TaskSet
-		var targets []string // connection ids a connect/disconnect/forget change is about
-		var apiErr error
-		summary := ""
-		switch opk {
-		case "connect":
-			p := canConnect[c.Draw("op.pair", len(canConnect))]
-			targets = []string{p.id()}
-			summary = "connect " + p.id()
-			st.Lock()
-			ts, err := ifacestate.Connect(st, p.ps, p.pn, p.ss, p.sn)
-			st.Unlock()
-			if err != nil {
-				apiErr = err
-			} else {
-				tss = append(tss, ts)
-			}
-		case "disconnect", "forget":
-			forget := opk == "forget"
-			cands := canDisconnect
-			if forget {
-				cands = canForget
-			}
-			p := cands[c.Draw("op.pair", len(cands))]
-			summary = opk + " " + p.id()
-			st.Lock()
-			var refs []*interfaces.ConnRef
-			var err error
-			if c.Chance("op.short-form", 1, 4) {
-				// snap disconnect <snap>:<plug>: every connection of the plug
-				summary = opk + " " + p.ps + ":" + p.pn
-				refs, err = e.in.mgr.ResolveDisconnect(p.ps, p.pn, "", "", forget)
-				sort.Slice(refs, func(i, j int) bool { return refs[i].ID() < refs[j].ID() })
-				if len(refs) > 1 {
-					c.Count("probe:multi-connection-disconnect")
-				}
-			} else {
-				refs, err = e.in.mgr.ResolveDisconnect(p.ps, p.pn, p.ss, p.sn, forget)
-			}
-			if err != nil {
-				apiErr = err
-				st.Unlock()
-				break
-			}
-			for _, ref := range refs {
-				var ts *state.TaskSet
-				if forget {
-					if _, cerr := repo.Connection(ref); cerr != nil {
-						c.Count("probe:forget-inactive-connection")
-					}
-					ts, err = ifacestate.Forget(st, repo, ref)
-				} else {
-					var conn *interfaces.Connection
-					conn, err = repo.Connection(ref)
-					if err == nil {
-						ts, err = ifacestate.Disconnect(st, conn)
-					}
-				}
-				if err != nil {
-					apiErr = err
-					break
-				}
-				tss = append(tss, ts)
-				targets = append(targets, ref.ID())
-			}
-			st.Unlock()
-			if apiErr != nil {
-				tss = nil
-			}
-		case "install":
-			name := canInstall[c.Draw("op.snap", len(canInstall))]
-			summary = "install " + name
-			if present[name] {
-				apiErr = fmt.Errorf("snap %q is already installed", name)
-				break
-			}
-			st.Lock()
-			if err := snapstate.CheckChangeConflict(st, name, nil); err != nil {
-				apiErr = err
-				st.Unlock()
-				break
-			}
-			snapsup := &snapstate.SnapSetup{SideInfo: sideInfo(name)}
-			sp := st.NewTask("setup-profiles", "setup profiles of "+name)
-			sp.Set("snap-setup", snapsup)
-			ln := st.NewTask("link-snap", "link "+name)
-			ln.Set("snap-setup-task", sp.ID())
-			ln.WaitFor(sp)
-			ac := st.NewTask("auto-connect", "auto-connect "+name)
-			ac.Set("snap-setup-task", sp.ID())
-			ac.WaitFor(ln)
-			tss = append(tss, state.NewTaskSet(sp, ln, ac))
-			st.Unlock()
-		case "remove":
-			name := canRemove[c.Draw("op.snap", len(canRemove))]
-			summary = "remove " + name
-			if !present[name] {
-				apiErr = fmt.Errorf("snap %q is not installed", name)
-				break
-			}
-			legacy := c.Chance("op.legacy-discard-conns", 1, 4)
-			st.Lock()
-			if err := snapstate.CheckChangeConflict(st, name, nil); err != nil {
-				apiErr = err
-				st.Unlock()
-				break
-			}
-			snapsup := &snapstate.SnapSetup{SideInfo: sideInfo(name)}
-			ad := st.NewTask("auto-disconnect", "disconnect interfaces of "+name)
-			ad.Set("snap-setup", snapsup)
-			prev := ad
-			all := []*state.Task{ad}
-			kinds := []string{"unlink-snap", "remove-profiles", "discard-snap"}
-			if legacy {
-				kinds = append(kinds, "discard-conns")
-				summary += " (+discard-conns)"
-			}
-			for _, k := range kinds {
-				t := st.NewTask(k, k+" "+name)
-				t.Set("snap-setup-task", ad.ID())
-				t.WaitFor(prev)
-				prev = t
-				all = append(all, t)
-			}
-			tss = append(tss, state.NewTaskSet(all...))
-			st.Unlock()
-		default: // restart between changes
-			c.Logf("OP %d: restart", opi)
-			e.restart("idle", nil)
+		first := e.submit(fmt.Sprintf("OP %d", opi), false, faultsOn, 0)
+		if first == nil {
 			continue
 		}
-		if apiErr != nil || len(tss) == 0 {
-			c.Logf("OP %d: %s refused: %v", opi, summary, apiErr)
-			c.Count("op-refused")
-			continue
+		overlapAt := 0
+		if overlapOn && c.Chance("op.overlap", 1, 3) {
+			overlapAt = 1 + c.Draw("op.overlap-step", 6)
 		}
-		// fault plan of this change
-		if faultsOn {
-			switch c.Draw("fault.kind", 8) {
-			case 3, 7:
-				plan.kind = verifFaultTask
-				plan.at = c.Draw("fault.task", 8)
-			case 4:
-				plan.kind = verifFaultHook
-				plan.at = c.Draw("fault.hook", 4)
-			case 5:
-				plan.kind = verifFaultSetup
-				plan.at = c.Draw("fault.setup", 4)
-			case 6:
-				plan.kind = verifFaultAbort
-				plan.at = c.Draw("fault.step", 16)
-			}
-		}
-		if c.Chance("restart.mid-change", 1, 8) {
-			plan.restartAt = 1 + c.Draw("restart.step", 12)
-		}
-		plan.dyn = c.Draw("hook.dynamic-attr", 3)
-		st.Lock()
-		chg := st.NewChange(plan.op, summary)
-		for _, ts := range tss {
-			chg.AddAll(ts)
-		}
-		chgID := chg.ID()
-		st.Unlock()
-		e.plans[chgID] = plan
-		c.Logf("OP %d: %s (change %s) fault=%s@%d restart@%d dyn=%d; before: conns=%s repo=%s", opi, summary, chgID,
-			verifFaultNames[plan.kind], plan.at, plan.restartAt, plan.dyn, verifKeys(pre.conns), verifKeys(pre.repo))
-		c.Count("op:" + plan.op)
-
-		status := e.drive(chgID, plan)
-		if len(c.Violations) > 0 {
+		active, ok := e.driveAll(first, overlapAt, faultsOn)
+		if !ok || len(c.Violations) > 0 {
 			return
 		}
-		post := e.snapshot()
-		fault := "none"
-		failed := status != state.DoneStatus
-		if failed {
-			fault = plan.faultName()
-			c.Count("probe:failed-change")
-			if fault == "natural" {
-				c.Count("fault:natural-failure")
-			}
-		}
-		if plan.fired || plan.restarted || failed {
-			c.Nontrivial()
-		}
-		c.Logf("SETTLED change %s %v (fault %s): %s", chgID, status, fault, e.statusLine(chgID))
-		c.Logf("  after: conns=%s repo=%s", verifKeys(post.conns), verifKeys(post.repo))
-
-		// sentence 1: a failed connect or disconnect change leaves everything as it was
-		if failed && len(targets) > 0 {
-			c.Add("transaction-evaluations", 1)
-			snapSet := map[string]bool{}
-			for _, id := range targets {
-				if ref, err := interfaces.ParseConnRef(id); err == nil {
-					snapSet[ref.PlugRef.Snap] = true
-					snapSet[ref.SlotRef.Snap] = true
-				}
-				if _, ok := pre.conns[id]; ok {
-					if !strings.Contains(pre.conns[id], `"undesired":true`) {
-						c.Count("probe:failed-change-on-existing-connection")
-					} else {
-						c.Count("probe:failed-change-over-undesired-entry")
-					}
-				}
-			}
-			if d := verifMapDiff(pre.conns, post.conns); d != "" {
-				c.Violate(fmt.Sprintf("C22/conns-not-restored.%s.%s", plan.op, fault),
-					"%s failed (%s, status %v) but the persisted connections differ from before the change (before vs after): %s", summary, fault, status, d)
-			}
-			if d := verifMapDiff(pre.repo, post.repo); d != "" {
-				c.Violate(fmt.Sprintf("C22/repo-not-restored.%s.%s", plan.op, fault),
-					"%s failed (%s, status %v) but the in-memory connections differ from before the change (before vs after): %s", summary, fault, status, d)
-			} else if d := verifMapDiff(pre.repoSt, post.repoSt); d != "" {
-				c.Violate(fmt.Sprintf("C22/repo-attrs-not-restored.%s.%s", plan.op, fault),
-					"%s failed (%s, status %v) but static attributes of in-memory connections differ (before vs after): %s", summary, fault, status, d)
-			}
-			for _, sn := range verifSnapNames {
-				if !snapSet[sn] || !plan.setupTouched[sn] {
-					continue
-				}
-				p := e.profiles[sn]
-				if p == nil || !p.ok || p.removed {
-					// the last attempt to write this snap's profile was the injected failure
-					continue
-				}
-				var ids []string
-				for id := range post.repo {
-					if strings.HasPrefix(id, sn+":") || strings.Contains(id, " "+sn+":") {
-						ids = append(ids, id)
-					}
-				}
-				sort.Strings(ids)
-				want := strings.Join(ids, ",")
-				c.Add("profile-evaluations", 1)
-				if p.seen != want {
-					c.Violate(fmt.Sprintf("C22/profile-not-regenerated.%s.%s", plan.op, fault),
-						"%s failed (%s, status %v): the security profile of %q was last generated from connections [%s] but the restored set is [%s]", summary, fault, status, sn, p.seen, want)
-				}
-			}
-		}
-		// sentence 2: after every settled change persisted == memory
-		// (not reported a second time when sentence 1 already found one
-		// side not restored)
-		if len(c.Violations) == 0 {
-			e.checkSync(post, "after-settled-change", plan.op, fault)
-		}
-		delete(e.plans, chgID)
+		e.evaluate(active)
 	}
 	if len(c.Violations) == 0 && c.Chance("final-restart", 1, 2) {
 		e.restart("idle", nil)
